@@ -27,7 +27,7 @@ class ParseError(Exception):
     pass
 
 
-RULE_RX = re.compile(r'^// rule (\w+):\n// if:\n((?:// - .*\n)*)// then:\n((?:// - .*\n)*)fn (\w+)\(env: &mut (\w+)\) \{', re.M)
+RULE_RX = re.compile(r'^// rule (\w+):\n// if:\n((?:// - .*\n|// ?\n)*)// then:\n((?:// - .*\n|// ?\n)*)fn (\w+)\(env: &mut (\w+)\) \{', re.M)
 ATOM_RX = re.compile(r'^// - (.*?)(?: \[(new|old|all)\])?$')
 SET_RX = re.compile(r'let set(\d+)_\w+?_r0 =\s*env\.(\w+)\s*;')
 FIELD_AGE_RX = re.compile(r'_(new|old)(?:_eqs_[0-9_]+)?_order_[0-9_]*(?:_own|_all)?$')
@@ -42,11 +42,13 @@ def parse_module(text):
             raise ParseError('comment names rule %s but the function is %s' % (name, m.group(4)))
         atoms = []
         for line in m.group(2).splitlines():
+            if not line.strip('/ ').strip():
+                continue        # an empty premise is printed as an empty comment line
             am = ATOM_RX.match(line)
             if not am or not am.group(2):
                 raise ParseError('premise line of %s not understood: %r' % (name, line))
             atoms.append((am.group(1).strip(), am.group(2)))
-        then = [ATOM_RX.match(line).group(1).strip() for line in m.group(3).splitlines()]
+        then = [ATOM_RX.match(line).group(1).strip() for line in m.group(3).splitlines() if line.strip('/ ').strip()]
         end = ms[k + 1].start() if k + 1 < len(ms) else len(text)
         stop = text.find('#[unsafe(no_mangle)]', m.end())
         if 0 <= stop < end:
@@ -59,6 +61,10 @@ def parse_module(text):
                 raise ParseError('%s reads field %s whose age is not recognisable' % (name, sm.group(2)))
             code.setdefault(int(sm.group(1)), set()).add(fm.group(1))
         fam = re.match(r'^(.*)_(\d+)_(\d+)$', name)
+        if not fam and not atoms:
+            # a rule (stage) with an empty premise is emitted once, without a sub-rule index: <rule>_<stage>
+            e = re.match(r'^(.*)_(\d+)$', name)
+            fam = re.match(r'^(.*)_(\d+)_(\d+)$', name + '_0') if e else None
         fn_m = re.match(r'^functionality_(\d+)$', name)
         subs.append({'name': name, 'env': m.group(5), 'atoms': atoms, 'then': then, 'code': code,
                      'family': (fam.group(1), int(fam.group(2))) if fam and not fn_m else None, 'functionality': bool(fn_m)})
